@@ -598,7 +598,7 @@ theorem extLenStep_Ext (s : S) (a b : Nat) : Ext s (extLenStep s a b).1 := by
         · exact h0
     · exact Ext.refl s
 
-theorem processHeader_Ext (s : S) (o0 o1 : UInt8) : Ext s (processHeader s o0 o1).1 := by
+theorem processHeader_Ext (s : S) (o0 o1 : UInt8) (buf : Bytes) : Ext s (processHeader s o0 o1 buf).1 := by
   unfold processHeader
   dsimp only
   have h0 := applyViolations_Ext s (headerViolations s.cfg s.insideMessage (o0.toNat / 128 = 1) (o0.toNat / 16 % 8)
@@ -610,24 +610,24 @@ theorem processHeader_Ext (s : S) (o0 o1 : UInt8) : Ext s (processHeader s o0 o1
   · split
     · have h1 := extLenStep_Ext r0.1 (o1.toNat % 128)
         (if o1.toNat % 128 < 126 then o1.toNat % 128 else
-          beNat ((r0.1.data.drop 2).take (if o1.toNat % 128 = 126 then 2 else if o1.toNat % 128 = 127 then 8 else 0)))
+          beNat ((buf.drop 2).take (if o1.toNat % 128 = 126 then 2 else if o1.toNat % 128 = 127 then 8 else 0)))
       generalize extLenStep r0.1 (o1.toNat % 128)
         (if o1.toNat % 128 < 126 then o1.toNat % 128 else
-          beNat ((r0.1.data.drop 2).take (if o1.toNat % 128 = 126 then 2 else if o1.toNat % 128 = 127 then 8 else 0))) = r1 at h1
+          beNat ((buf.drop 2).take (if o1.toNat % 128 = 126 then 2 else if o1.toNat % 128 = 127 then 8 else 0))) = r1 at h1
       split
       · exact h0.trans h1
       · exact (h0.trans h1).trans (Ext.trans (by exact Ext.of_eq rfl rfl rfl rfl rfl rfl rfl) (onFrameBegin_Ext _ _))
     · exact h0
 
-theorem processPayload_Ext (s : S) (h : Hdr) : Ext s (processPayload s h).1 := by
+theorem processPayload_Ext (s : S) (h : Hdr) (buf : Bytes) : Ext s (processPayload s h buf).1 := by
   unfold processPayload
   dsimp only
-  have h0 : Ext s { s with data := s.data.drop (h.length - s.ptr), ptr := s.ptr + (s.data.take (h.length - s.ptr)).length } :=
+  have h0 : Ext s { s with ptr := s.ptr + (buf.take (h.length - s.ptr)).length } :=
     Ext.of_eq rfl rfl rfl rfl rfl rfl rfl
-  have h1 := onFrameData_Ext { s with data := s.data.drop (h.length - s.ptr), ptr := s.ptr + (s.data.take (h.length - s.ptr)).length }
-    h (unmaskChunk s h (s.data.take (h.length - s.ptr)))
-  generalize onFrameData { s with data := s.data.drop (h.length - s.ptr), ptr := s.ptr + (s.data.take (h.length - s.ptr)).length }
-    h (unmaskChunk s h (s.data.take (h.length - s.ptr))) = r at h1
+  have h1 := onFrameData_Ext { s with ptr := s.ptr + (buf.take (h.length - s.ptr)).length }
+    h (unmaskChunk s h (buf.take (h.length - s.ptr)))
+  generalize onFrameData { s with ptr := s.ptr + (buf.take (h.length - s.ptr)).length }
+    h (unmaskChunk s h (buf.take (h.length - s.ptr))) = r at h1
   split
   · exact h0.trans h1
   · have h2 : Ext r.1 (if r.1.ptr = h.length then onFrameEnd r.1 h else (r.1, true)).1 := by
@@ -639,35 +639,37 @@ theorem processPayload_Ext (s : S) (h : Hdr) : Ext s (processPayload s h).1 := b
     · exact (h0.trans h1).trans h2
     · exact (h0.trans h1).trans h2
 
-theorem processData_Ext (s : S) : Ext s (processData s).1 := by
+theorem processData_Ext (s : S) (buf : Bytes) : Ext s (processData s buf).1 := by
   unfold processData
   split
   · split
-    · exact processHeader_Ext _ _ _
+    · exact processHeader_Ext _ _ _ _
     · exact Ext.refl s
-  · exact processPayload_Ext _ _
+  · exact processPayload_Ext _ _ _
 
-theorem drain_Ext (fuel : Nat) (s : S) : Ext s (drain fuel s) := by
-  induction fuel generalizing s with
+theorem drain_Ext (fuel : Nat) (s : S) (buf : Bytes) : Ext s (drain fuel s buf).1 := by
+  induction fuel generalizing s buf with
   | zero => exact Ext.refl s
   | succ n ih =>
     unfold drain
-    have h := processData_Ext s
-    generalize processData s = r at h
-    obtain ⟨s', again⟩ := r
+    have h := processData_Ext s buf
+    generalize processData s buf = r at h
     dsimp only
     split
-    · exact h.trans (ih _)
+    · exact h.trans (ih _ _)
     · exact h
 
 theorem dataReceived_Ext (s : S) (d : Bytes) : Ext s (dataReceived s d) := by
   unfold dataReceived
   split
   · exact Ext.refl s
-  · dsimp only
+  · have hd := drain_Ext (drainFuel (s.data ++ d)) { s with data := [] } (s.data ++ d)
+    have h0 : Ext s { s with data := [] } := Ext.of_eq rfl rfl rfl rfl rfl rfl rfl
     split
-    · exact Ext.trans (by exact Ext.of_eq rfl rfl rfl rfl rfl rfl rfl) (drain_Ext _ _)
-    · exact Ext.trans (by exact Ext.of_eq rfl rfl rfl rfl rfl rfl rfl) (drain_Ext _ _)
+    · dsimp only
+      exact (h0.trans hd).trans (by exact Ext.of_eq rfl rfl rfl rfl rfl rfl rfl)
+    · dsimp only
+      exact (h0.trans hd).trans (by exact Ext.of_eq rfl rfl rfl rfl rfl rfl rfl)
     · exact Ext.of_eq rfl rfl rfl rfl rfl rfl rfl
 
 end Abverif.Ws
